@@ -12,6 +12,7 @@ from concurrent.futures import ThreadPoolExecutor
 
 VERIF = os.path.dirname(os.path.dirname(os.path.abspath(__file__)))
 REPO = os.environ.get("VERIF_REPO", "/repo")
+EVDIR = os.environ.get("VERIF_EVIDENCE_DIR")      # mutation trials write their evidence elsewhere
 BUILD = os.path.join(VERIF, "build")
 COQ = os.path.join(VERIF, "coq")
 GUARD = "SLU_MT_VERIF"
@@ -96,7 +97,7 @@ class Ctx:
         self.rng = random.Random(seed * 1000003 + int(pid[1:]))
         self.bdir = os.path.join(BUILD, pid)
         os.makedirs(self.bdir, exist_ok=True)
-        os.makedirs(os.path.join(VERIF, "evidence", "replay"), exist_ok=True)
+        os.makedirs(os.path.join(EVDIR or os.path.join(VERIF, "evidence"), "replay"), exist_ok=True)
         self.violations = []          # list of dict
         self.known_hit = []
         self.cov = {"evaluations": 0, "distinct_nontrivial": 0, "rule": "", "samples": [],
@@ -370,7 +371,7 @@ class Ctx:
     def replay_path(self, tag="v"):
         i = 0
         while True:
-            p = os.path.join(VERIF, "evidence", "replay", "%s-%s-%d.json" % (self.pid, tag, i))
+            p = os.path.join(EVDIR or os.path.join(VERIF, "evidence"), "replay", "%s-%s-%d.json" % (self.pid, tag, i))
             if not os.path.exists(p):
                 return p
             i += 1
@@ -420,11 +421,11 @@ class Ctx:
               "known_findings_hit": [k["id"] for k in self.known_hit]}
         if not self.cov["samples"]:
             self.cov["samples"] = ["(no case recorded)"]
-        os.makedirs(os.path.join(VERIF, "evidence"), exist_ok=True)
-        tmp = os.path.join(VERIF, "evidence", "%s.json.tmp" % self.pid)
+        os.makedirs(EVDIR or os.path.join(VERIF, "evidence"), exist_ok=True)
+        tmp = os.path.join(EVDIR or os.path.join(VERIF, "evidence"), "%s.json.tmp" % self.pid)
         with open(tmp, "w") as f:
             json.dump(ev, f, indent=1, default=str)
-        os.replace(tmp, os.path.join(VERIF, "evidence", "%s.json" % self.pid))
+        os.replace(tmp, os.path.join(EVDIR or os.path.join(VERIF, "evidence"), "%s.json" % self.pid))
         return 1 if self.violations else 0
 
 
